@@ -128,6 +128,12 @@ def parsePolyOp (s : String) : Option PolyOp :=
       | [a, b] => do let a ← parseLabel? a; let b ← parseLabel? b; pure (a, b)
       | _ => none
     pure (.relabel ps)
+  | ["relabelvia", m] => do
+    let ps ← (m.splitOn ",").mapM fun e =>
+      match e.splitOn ">" with
+      | [a, b] => do let a ← parseLabel? a; let b ← parseLabel? b; pure (a, b)
+      | _ => none
+    pure (.relabelVia ps)
   | _ => none
 def parsePolyOps (s : String) : Option (List PolyOp) := if s = "-" then some [] else (s.splitOn "!").mapM parsePolyOp
 
